@@ -371,6 +371,11 @@ def construct_cases():
     add('define boolean', dM, ('let', [('p', cmp_('>', A('+', V('x'), V('y')), N(3))), ('q', bn('and', ('bref', 'p'), B('a')))], ('not', ('bref', 'q'))), mode='define')
     # arithmetic-valued registered operators: only terminals are accepted by Context.define
     add('define arithmetic terminal', dI, ('let', [('d', N(-3)), ('e', V('x'))], cmp_('>=', A('*', ('ref', 'd'), ('ref', 'e')), A('+', V('y'), N(-9)))), mode='define')
+    add('prime on LET-defined arithmetic operator', dP, ('let', [('f', A('+', V('x'), N(1)))], cmp_('>', ('aprime', ('ref', 'f')), V('x'))))
+    add('prime on LET-defined Boolean operator', dP, ('let', [('s', cmp_('<', V('x'), V('y')))], bn('and', ('bprime', ('bref', 's')), ('not', ('bref', 's')))))
+    add('prime around a LET', dP, ('bprime', ('let', [('g', A('-', V('x'), V('y')))], cmp_('<=', ('ref', 'g'), N(1)))))
+    add('prime on a compound expression', dP, cmp_('=', ('aprime', A('+', V('x'), V('y'))), A('*', V('x'), N(2))))
+    add('prime on registered operator', dP, ('let', [('small', cmp_('<', V('x'), N(3)))], bn('and', ('bprime', ('bref', 'small')), ('not', ('bref', 'small')))), mode='define')
     add('primes', dP, bn('and', cmp_('=', V('x', True), A('+', V('x'), N(1))), bn('equiv', B('a', True), ('not', B('a')))))
     add('primes mixed', dP, cmp_('<', A('-', V('y', True), V('y')), A('*', V('x', True), V('x'))))
     add('division by constant', dI, cmp_('=', A('/', V('y'), N(2)), A('%', V('z'), N(-3))))
@@ -408,7 +413,8 @@ def random_cases(n, seed, maxw, depth):
                     return ('var', rnd.choice(ints), primed and rnd.random() < 0.4)
                 if c < 0.9 or not refs:
                     return ('num', rnd.randint(-9, 9))
-                return ('ref', rnd.choice(refs))
+                r_ = ('ref', rnd.choice(refs))
+                return ('aprime', r_) if primed and rnd.random() < 0.4 else r_
             if r < 0.85:
                 op = rnd.choice(['+', '-', '*', '/', '%', '+', '-', '*'])
                 return ('arith', op, gen_a(d - 1, refs), gen_a(d - 1, refs))
@@ -429,7 +435,8 @@ def random_cases(n, seed, maxw, depth):
             if d == 0:
                 if r < 0.5 or not brefs:
                     return ('bvar', rnd.choice(bools), primed and rnd.random() < 0.4)
-                return ('bref', rnd.choice(brefs))
+                r_ = ('bref', rnd.choice(brefs))
+                return ('bprime', r_) if primed and rnd.random() < 0.4 else r_
             if r < 0.45:
                 return ('cmp', rnd.choice(sem.CMP), gen_a(d - 1, refs), gen_a(d - 1, refs))
             if r < 0.52:
